@@ -181,8 +181,17 @@ func (p *SLOCfgHandlerForConfigMapEvent) GetCfgCopy() *SLOCfg {
 
 func (p *SLOCfgHandlerForConfigMapEvent) IsCfgAvailable() bool {
 	p.cfgCache.lock.RLock()
-	defer p.cfgCache.lock.RUnlock()
+	available := p.cfgCache.available
+	p.cfgCache.lock.RUnlock()
 	// if config is available, just return
+	if available {
+		return true
+	}
+	// the lazy initialisation writes the cache: it needs the write lock, and it must run at most once. Two reconcile
+	// workers initialising at the same time could read different states of the configmap; the nodes reconciled with the
+	// older one were never enqueued again (the event of the newer one finds the cache unchanged).
+	p.cfgCache.lock.Lock()
+	defer p.cfgCache.lock.Unlock()
 	if p.cfgCache.available {
 		return true
 	}
